@@ -228,7 +228,7 @@ def r4_routes(rep, ctx):
         n_ret += _classify_returns(rep, m, spec)
     rep.floor("C01.R4", "returns of conversion routes classified", n_ret, 6)
     if not any(o.rule == "C01.R4" and o.status == "violated" for o in rep.obligations):
-        rep.floor("C01.R4", "conversion returns", n_conv, 5)
+        rep.floor("C01.R4", "conversion returns", n_conv, len(ROUTES))
     else:
         rep.analysed["C01.R4:conversion returns"] = n_conv
     # the registered-conversion hand-off inside Convert passes (from, to, value) positionally
